@@ -90,11 +90,17 @@ func strictPrefix(shorter, longer string) bool {
 type tidKey struct{}
 
 type putRec struct {
-	d, toks string
-	tid     int
-	step    int // decision count when the copy reached the fake
-	done    bool
-	ok      bool
+	d, toks  string
+	tid      int
+	step     int // decision count when the copy reached the fake
+	done     bool
+	ok       bool
+	landed   int // order in which successful writes took effect (1, 2, ...)
+	doneStep int // decision count when the Put call left the fake
+	// handle is the message object of the handle that was registered for
+	// the digest when the copy reached the fake (identity only; nil if
+	// none): queued handles are registered handles.
+	handle *iscc.PreviousExecutionStats
 }
 
 // callRec is what an in-progress store.Get() call of a harness thread has
@@ -109,12 +115,36 @@ type fakeISCC struct {
 	x  *mc.X
 	mu sync.Mutex // plain bookkeeping lock, never held across a scheduling point
 
-	data      map[string][]byte
-	puts      []*putRec
-	calls     map[int]*callRec
-	getFaults bool
-	putFaults bool
-	faultFree bool // set during the drain
+	data       map[string][]byte
+	content    map[string]string // digest name -> rendered token list of data
+	puts       []*putRec
+	calls      map[int]*callRec
+	inFake     map[int]int // per harness thread: sub-calls currently parked in the fake
+	putsInFake map[int]int // ... of which Put calls
+	getFaults  bool
+	putFaults  bool
+	faultFree  bool // set during the drain
+	landed     int
+	// registeredMessage returns the message object of the handle that is
+	// currently registered for a digest (installed once the store exists).
+	registeredMessage func(d digest.Digest) *iscc.PreviousExecutionStats
+}
+
+func (f *fakeISCC) enter(tid, n int) {
+	f.mu.Lock()
+	f.inFake[tid] += n
+	f.mu.Unlock()
+}
+
+// waiting reports whether the store.Get() call of a harness thread is
+// waiting for sub-calls that are parked in the fake.
+func (f *fakeISCC) waiting(tid int, forPut bool) bool {
+	f.mu.Lock()
+	defer f.mu.Unlock()
+	if forPut {
+		return f.putsInFake[tid] > 0
+	}
+	return f.inFake[tid] > 0
 }
 
 func (f *fakeISCC) call(tid int) *callRec {
@@ -137,6 +167,7 @@ func (f *fakeISCC) Get(ctx context.Context, d digest.Digest) buffer.Buffer {
 	tid := tidOf(ctx)
 	label := fmt.Sprintf("iscc.Get(%s) by T%d", nameOf(d), tid)
 	fail := false
+	f.enter(tid, 1)
 	if f.getFaults && !f.faultFree {
 		fail = f.x.Choose(label, 2) == 1
 	} else {
@@ -144,6 +175,7 @@ func (f *fakeISCC) Get(ctx context.Context, d digest.Digest) buffer.Buffer {
 	}
 	f.mu.Lock()
 	defer f.mu.Unlock()
+	f.inFake[tid]--
 	c := f.call(tid)
 	if ctx.Err() != nil {
 		c.failed = true
@@ -160,7 +192,7 @@ func (f *fakeISCC) Get(ctx context.Context, d digest.Digest) buffer.Buffer {
 		f.x.Logf("iscc.Get(%s) by T%d = NotFound", nameOf(d), tid)
 		return buffer.NewBufferFromError(status.Error(codes.NotFound, "not found"))
 	}
-	c.read = "[" + tokensOfBytes(b) + "]"
+	c.read = "[" + f.content[nameOf(d)] + "]"
 	f.x.Logf("iscc.Get(%s) by T%d = %s", nameOf(d), tid, c.read)
 	return buffer.NewProtoBufferFromByteSlice(&iscc.PreviousExecutionStats{}, append([]byte(nil), b...), buffer.UserProvided)
 }
@@ -172,8 +204,15 @@ func (f *fakeISCC) Put(ctx context.Context, d digest.Digest, b buffer.Buffer) er
 		return err
 	}
 	rec := &putRec{d: nameOf(d), toks: tokensOfBytes(data), tid: tid, step: f.x.Steps()}
+	if !f.x.Free() && f.registeredMessage != nil {
+		// Safe: all other goroutines are parked outside the store's
+		// critical sections or have not passed their first hook yet.
+		rec.handle = f.registeredMessage(d)
+	}
 	f.mu.Lock()
 	f.puts = append(f.puts, rec)
+	f.inFake[tid]++
+	f.putsInFake[tid]++
 	f.mu.Unlock()
 	label := fmt.Sprintf("iscc.Put(%s=[%s]) by T%d", rec.d, rec.toks, tid)
 	fail := false
@@ -184,7 +223,13 @@ func (f *fakeISCC) Put(ctx context.Context, d digest.Digest, b buffer.Buffer) er
 	}
 	f.mu.Lock()
 	defer f.mu.Unlock()
+	f.inFake[tid]--
+	f.putsInFake[tid]--
 	rec.done = true
+	rec.doneStep = f.x.Steps()
+	// All the writing goroutine knows from here on is which copy it wrote
+	// and whether that succeeded.
+	defer func() { f.x.ResetLocal(fmt.Sprintf("put %s=[%s] by T%d ok=%v", rec.d, rec.toks, tid, rec.ok)) }()
 	if ctx.Err() != nil {
 		f.call(tid).failed = true
 		f.x.Logf("iscc.Put(%s=[%s]) by T%d cancelled", rec.d, rec.toks, tid)
@@ -196,7 +241,10 @@ func (f *fakeISCC) Put(ctx context.Context, d digest.Digest, b buffer.Buffer) er
 		return status.Error(codes.Unavailable, "ISCC unavailable")
 	}
 	rec.ok = true
+	f.landed++
+	rec.landed = f.landed
 	f.data[d.String()] = data
+	f.content[rec.d] = rec.toks
 	f.x.Logf("iscc.Put(%s=[%s]) by T%d stored", rec.d, rec.toks, tid)
 	return nil
 }
@@ -243,6 +291,36 @@ type storeEnv struct {
 	held     []heldRec
 	draining bool
 	getErrs  int
+	arrived  int // sequenced scenarios: number of requests that have arrived
+	done     []bool
+}
+
+// Predicates for the gates of directed scenarios (evaluated by the
+// controller at quiescent points).
+func (e *storeEnv) isDone(tid int) bool {
+	e.mu.Lock()
+	defer e.mu.Unlock()
+	return e.done[tid]
+}
+
+func (e *storeEnv) holds(tid int) bool {
+	e.mu.Lock()
+	defer e.mu.Unlock()
+	for _, o := range e.held {
+		if o.tid == tid {
+			return true
+		}
+	}
+	return false
+}
+
+func (e *storeEnv) registered(d digest.Digest) bool {
+	for _, i := range e.dump() {
+		if i.Registered && i.Digest == d.String() {
+			return true
+		}
+	}
+	return false
 }
 
 type callKind int
@@ -315,6 +393,9 @@ func (e *storeEnv) run(tid int, c scriptCall, tok int64) {
 	if !ok {
 		return
 	}
+	// All the thread knows at this point is which call it is executing and
+	// which handle it holds; the latter is part of the global key ("held").
+	e.x.ResetLocal(fmt.Sprintf("T%d holds a handle for %s, about to %v", tid, nameOf(c.d), c))
 	e.glock.Lock()
 	if c.kind == update {
 		m := h.GetMutableProto()
@@ -342,8 +423,8 @@ func (e *storeEnv) key() string {
 	}
 	e.iscc.mu.Lock()
 	var ds []string
-	for d, data := range e.iscc.data {
-		ds = append(ds, digestNames[d]+"=["+tokensOfBytes(data)+"]")
+	for d, toks := range e.iscc.content {
+		ds = append(ds, d+"=["+toks+"]")
 	}
 	sort.Strings(ds)
 	fmt.Fprintf(&b, "| iscc %s ", strings.Join(ds, " "))
@@ -406,7 +487,7 @@ func (e *storeEnv) key() string {
 		held = append(held, fmt.Sprintf("T%d:%s", o.tid, slot))
 	}
 	sort.Strings(held)
-	fmt.Fprintf(&b, "| held %s | drain=%v errs=%d", strings.Join(held, " "), e.draining, e.getErrs)
+	fmt.Fprintf(&b, "| held %s | drain=%v errs=%d arrived=%d", strings.Join(held, " "), e.draining, e.getErrs, e.arrived)
 	e.mu.Unlock()
 	e.iscc.mu.Unlock()
 	return b.String()
@@ -444,10 +525,8 @@ func (e *storeEnv) finish() {
 	e.mu.Lock()
 	defer e.mu.Unlock()
 	final := func(d string) string {
-		for k, data := range e.iscc.data {
-			if digestNames[k] == d {
-				return "[" + tokensOfBytes(data) + "]"
-			}
+		if toks, ok := e.iscc.content[d]; ok {
+			return "[" + toks + "]"
 		}
 		return "absent"
 	}
@@ -470,6 +549,31 @@ func (e *storeEnv) finish() {
 	// (v) the cache does not end up with an older version of released statistics.
 	for _, r := range e.releases {
 		if f := final(r.d); f != "absent" && strictPrefix(strings.Trim(f, "[]"), r.toks) {
+			// Which write left the older version behind, and was its copy
+			// taken before the copy of a write that carried the release?
+			var last, newer *putRec
+			for _, p := range e.iscc.puts {
+				if p.ok && p.d == r.d {
+					if last == nil || p.landed > last.landed {
+						last = p
+					}
+					if newer == nil && extends(p.toks, r.toks) {
+						newer = p
+					}
+				}
+			}
+			// Known finding F5, precisely: two write-backs of the same
+			// handle object were in flight at the same time (the older
+			// copy was taken first and its Put had not returned when the
+			// newer copy reached the cache) and the older one took effect
+			// last. Anything else that leaves an older version behind is
+			// reported under the general fingerprint below.
+			if last != nil && newer != nil && last != newer &&
+				last.step < newer.step && last.doneStep > newer.step && last.landed > newer.landed &&
+				strictPrefix(last.toks, newer.toks) &&
+				last.handle != nil && last.handle == newer.handle {
+				x.FailP(prop, "store/overlapping-write-backs-landed-out-of-order", "two write-backs of %s were in flight at the same time: the copy [%s] (taken at step %d) took effect after the newer copy [%s] (taken at step %d), and nothing wrote the newer version again: after the drain the ISCC holds %s=%s although T%d released [%s]; puts: %s", r.d, last.toks, last.step, newer.toks, newer.step, r.d, f, r.tid, r.toks, e.renderPuts(r.d))
+			}
 			x.FailP(prop, "store/final-contents-older-than-release", "after the drain the ISCC holds %s=%s, an older version of the statistics [%s] that T%d released; puts: %s", r.d, f, r.toks, r.tid, e.renderPuts(r.d))
 		}
 	}
@@ -498,7 +602,7 @@ func (e *storeEnv) renderPuts(d string) string {
 	var l []string
 	for _, p := range e.iscc.puts {
 		if p.d == d {
-			l = append(l, fmt.Sprintf("[%s]@%d ok=%v", p.toks, p.step, p.ok))
+			l = append(l, fmt.Sprintf("[%s]@%d ok=%v landed=%d", p.toks, p.step, p.ok, p.landed))
 		}
 	}
 	return strings.Join(l, " ")
@@ -507,13 +611,33 @@ func (e *storeEnv) renderPuts(d string) string {
 // ---------------------------------------------------------------------------
 // Scenarios
 
+type arrivalMode int
+
+const (
+	allAtOnce arrivalMode = iota
+	afterWait
+	afterPut
+	afterStart // request k+1 arrives at any time after request k has arrived
+)
+
 type storeScenario struct {
-	name      string
-	scripts   [][]scriptCall
-	getFaults bool
-	putFaults bool
-	bounds    map[string]int
-	shards    int
+	name    string
+	scripts [][]scriptCall
+	// sequenced: request k+1 arrives only once request k has completed
+	// or is waiting for the cache: afterWait = any of its sub-calls is
+	// parked in the fake ISCC, afterPut = one of its write-backs is. This
+	// concentrates the exploration on in-flight reads and write-backs;
+	// thread-against-thread races at lock granularity are covered by the
+	// scenarios in which all threads start at once (allAtOnce).
+	sequenced arrivalMode
+	// gates (directed scenarios): gates[k] decides when request k+2 may
+	// arrive, instead of the arrival mode.
+	gates       []func(e *storeEnv) bool
+	getFaults   bool
+	putFaults   bool
+	preemptFree bool
+	bounds      map[string]int
+	shards      int
 }
 
 var singleP sync.Once
@@ -529,6 +653,8 @@ func (sc *storeScenario) scenario() *mc.Scenario {
 		Panics:   []string{prop},
 		Bounds:   sc.bounds,
 		Shards:   sc.shards,
+
+		PreemptFree: sc.preemptFree,
 		Build: func(x *mc.X) {
 			if !x.Free() {
 				// Goroutines spawned by the store reach their first hook in
@@ -536,14 +662,23 @@ func (sc *storeScenario) scenario() *mc.Scenario {
 				singleP.Do(func() { runtime.GOMAXPROCS(1) })
 			}
 			x.AdoptAnonymous()
-			f := &fakeISCC{x: x, data: map[string][]byte{}, calls: map[int]*callRec{}, getFaults: sc.getFaults, putFaults: sc.putFaults}
+			f := &fakeISCC{x: x, data: map[string][]byte{}, content: map[string]string{}, calls: map[int]*callRec{}, inFake: map[int]int{}, putsInFake: map[int]int{}, getFaults: sc.getFaults, putFaults: sc.putFaults}
 			e := &storeEnv{x: x, iscc: f}
 			e.store = re_blobstore.NewBlobAccessMutableProtoStore[iscc.PreviousExecutionStats](f, 1<<20)
 			e.dump = e.store.(interface {
 				VerifSizeclassDump() []re_blobstore.VerifSizeclassHandleInfo
 			}).VerifSizeclassDump
-			for ti, script := range sc.scripts {
-				tid, script := ti+1, script
+			f.registeredMessage = func(d digest.Digest) *iscc.PreviousExecutionStats {
+				for _, i := range e.dump() {
+					if i.Registered && i.Digest == d.String() {
+						return i.Message.(*iscc.PreviousExecutionStats)
+					}
+				}
+				return nil
+			}
+			done := make([]bool, len(sc.scripts)+1)
+			spawn := func(tid int) {
+				script := sc.scripts[tid-1]
 				name := fmt.Sprintf("T%d", tid)
 				x.Go(name, func() {
 					for ci, c := range script {
@@ -551,7 +686,39 @@ func (sc *storeScenario) scenario() *mc.Scenario {
 						e.run(tid, c, int64(10*tid+ci))
 					}
 					x.ResetLocal(name + "#end")
+					e.mu.Lock()
+					done[tid] = true
+					e.mu.Unlock()
 				})
+			}
+			e.done = done
+			if sc.sequenced != allAtOnce || sc.gates != nil {
+				e.arrived = 1
+				spawn(1)
+				x.AddEvent(&mc.Event{
+					Name: "next request arrives",
+					Free: true,
+					Enabled: func() bool {
+						if e.arrived >= len(sc.scripts) {
+							return false
+						}
+						if sc.gates != nil {
+							return sc.gates[e.arrived-1](e)
+						}
+						e.mu.Lock()
+						d := done[e.arrived]
+						e.mu.Unlock()
+						return d || sc.sequenced == afterStart || f.waiting(e.arrived, sc.sequenced == afterPut)
+					},
+					Fire: func() {
+						e.arrived++
+						spawn(e.arrived)
+					},
+				})
+			} else {
+				for ti := range sc.scripts {
+					spawn(ti + 1)
+				}
 			}
 			x.AddEvent(&mc.Event{
 				Name:     "drain",
@@ -561,7 +728,9 @@ func (sc *storeScenario) scenario() *mc.Scenario {
 					e.draining = true
 					f.faultFree = true
 					x.Go("D", func() {
-						for i := 0; i < 4; i++ {
+						// Every Get() writes back up to three queued
+						// handles; nothing can fail any more.
+						for i := 0; i < 6 && (x.Free() || len(e.dump()) > 0); i++ {
 							x.ResetLocal(fmt.Sprintf("D#%d", i))
 							e.run(99, tch(dC), 0)
 						}
@@ -582,16 +751,74 @@ func (sc *storeScenario) scenario() *mc.Scenario {
 }
 
 func storeScenarios() []*mc.Scenario {
+	unbounded := func(quick int) map[string]int { return map[string]int{"quick": quick, "thorough": -1} }
 	scs := []*storeScenario{
 		{
-			// A write-back of A is in flight while A's handle is re-acquired,
-			// modified, released dirty, re-acquired again; the write
-			// completes; released clean.
+			// The 4-step history: a write-back of A is in flight while A's
+			// handle is re-acquired, modified, released dirty and
+			// re-acquired again; the write completes; released clean.
 			name:      "store-reacquire-during-writeback",
 			scripts:   [][]scriptCall{{upd(dA)}, {tch(dB)}, {upd(dA)}, {tch(dA)}},
+			sequenced: afterPut,
 			putFaults: true,
-			bounds:    map[string]int{"quick": 1, "thorough": -1},
+			bounds:    unbounded(1),
+		},
+		{
+			// Two requests for the same digest whose Get() calls overlap from
+			// the start (both parked in the ISCC read before either registers
+			// a handle), with read and write failures.
+			name:      "store-overlap-2-faults",
+			scripts:   [][]scriptCall{{upd(dA), tch(dB)}, {upd(dA)}},
+			getFaults: true,
+			putFaults: true,
+			bounds:    unbounded(2),
+		},
+		{
+			// Three overlapping requests on two colliding digests.
+			name:    "store-overlap-3",
+			scripts: [][]scriptCall{{upd(dA), tch(dB)}, {upd(dA)}, {tch(dA)}},
+			bounds:  unbounded(0),
+			shards:  8,
+		},
+		{
+			// Requests arriving while a write-back started by the previous
+			// one is in flight, with read and write failures. (This is the
+			// scenario in which two write-backs of one handle overlap.)
+			name:      "store-arrivals-3-faults",
+			scripts:   [][]scriptCall{{upd(dA)}, {tch(dB)}, {upd(dA), tch(dB)}},
+			sequenced: afterPut,
+			putFaults: true,
+			getFaults: true,
+			bounds:    unbounded(1),
 			shards:    8,
+		},
+		{
+			// The same arrival pattern with dirty handles of both digests.
+			name:      "store-arrivals-two-digests",
+			scripts:   [][]scriptCall{{upd(dA)}, {upd(dB), tch(dA)}, {upd(dA)}},
+			sequenced: afterPut,
+			putFaults: true,
+			bounds:    unbounded(1),
+			shards:    8,
+		},
+		{
+			// Directed: a handle is released clean, hence queued a second
+			// time, while its write-back is in flight; that write completes
+			// (the handle is destroyed); another Get() drains the queue while
+			// a new handle for the digest is obtained and held, and yet
+			// another request for the digest arrives. All six requests run
+			// in any case; the gates only order their arrival.
+			name:    "store-requeued-during-writeback-directed",
+			scripts: [][]scriptCall{{upd(dA)}, {tch(dB)}, {tch(dA)}, {tch(dB)}, {upd(dA)}, {upd(dA)}},
+			gates: []func(e *storeEnv) bool{
+				func(e *storeEnv) bool { return e.isDone(1) },
+				func(e *storeEnv) bool { return e.iscc.waiting(2, true) || e.isDone(2) },
+				func(e *storeEnv) bool { return e.isDone(3) && e.isDone(2) },
+				func(e *storeEnv) bool { return (e.iscc.waiting(4, true) && !e.registered(dA)) || e.isDone(4) },
+				func(e *storeEnv) bool { return e.holds(5) || e.isDone(5) },
+			},
+			bounds: map[string]int{"quick": 2, "thorough": -1},
+			shards: 8,
 		},
 	}
 	var out []*mc.Scenario
